@@ -6,6 +6,48 @@ ROOT = os.path.dirname(os.path.dirname(os.path.abspath(__file__)))
 BASELINE_OFF = ("cd /repo && GOFLAGS=-mod=mod go build ./... && GOFLAGS=-mod=mod go test -json -vet=off -count=1 -timeout 25m ./...")
 
 CHECKS = {
+ "C03": dict(
+   technique="Coq proof (nested induction over the route tree and over insertions) that generated routing = OpenAPI path matching + exhaustive differential check over request universes",
+   text="C03_route_eq_match: for every spec with pairwise non-equivalent templates, every base-path form, every request path (any byte string) "
+        "and method, the model of the generated router (string-level splitPath/HasPrefix code of template Route, the tree built by Route.add, the "
+        "base-path prologue, goag.Generate's base-path normalisation) returns exactly the result of the declarative matcher (least template under "
+        "literal-before-variable preference that matches segment for segment beneath the normalised base path and has the method). Supporting "
+        "theorems: string level = segment level, tree search sound+complete w.r.t. the templates it denotes, Route.add denotes exactly the inserted "
+        "templates, executable matcher = relational spec, uniqueness, trailing-slash significance, reported template = declared raw path. "
+        "Tie every run: the real generator on template sets x 10 base-path forms, compiled, ALL request paths to depth 4 (5 thorough) over the "
+        "set's alphabet + foreign + empty segment x methods through real ServeHTTP vs extracted model vs extracted reference matcher.",
+   note="Trusted: Coq kernel; extraction + driver.ml; Go harness and reflective driver. Modelled not verified: Go semantics of the emitted router "
+        "code (transcribed by hand in Model/Router.v), net/url (oracle: URL.Path computed by the harness). Hypothesis cors_ok (CORS handler installed "
+        "or CORS off): the nil-CORS-handler corner is C17's.",
+   ref="DESIGN.md section 4 (C03)"),
+ "C11": dict(
+   technique="Coq proof over the model of NewRouter/authMiddlewareOr (soundness+completeness of the auth loop w.r.t. the operation's effective requirement) + enumeration of all small security configurations against the compiled package",
+   text="C11_auth_sound/complete: for every spec the generator accepts, every API configuration and request, the authenticator loop emitted for an "
+        "operation lets the handler run with hook i's request iff an alternative of THAT operation's effective requirement (own list, else global; "
+        "[] = public) is accepted by hook i, and ends in 401 iff none is; C11_public, C11_secured, C11_foreign_credentials (every hook consulted "
+        "belongs to a scheme of the operation's own requirement), nil hooks never called, C11_accepted_simple (accepted specs only contain "
+        "requirement shapes goag implements; others are rejected at generation). Tie: 2592 configurations (all in thorough, 150 quick) x credential "
+        "subsets x nil hooks through the compiled package vs model vs declarative spec; generator accept/reject compared with the model's gen_accepts.",
+   note="Trusted as C03, plus: user authenticators modelled as token predicates; the declarative spec picks bearer alternatives first among several "
+        "accepted ones (the property leaves the choice open; theorems state membership). Dispatch itself is C03.",
+   ref="DESIGN.md section 4 (C11)"),
+ "C16": dict(
+   technique="Coq proof of the trace shape of API.ServeHTTP's model + verbatim trace comparison against the compiled package",
+   text="C16_wrapping: every dispatched request's trace is Enter 0..n-1 (each seeing the matched template) ++ inner ++ Leave n-1..0 with inner "
+        "containing only authenticator calls and the handler (each middleware exactly once, first-declared outermost, all outside the security "
+        "check), for every spec, stack length and request; C16_unrouted_bypass, C16_spec_file_bypass, C16_cors_bypass. Which operation is dispatched "
+        "is C03. Tie: stacks 0..4 x spec handler on/off x not-found on/off x secured/cors specs over routed, unrouted, spec-file and preflight "
+        "requests; traces compared verbatim with the model and (without auth events) with the declarative serve_spec.",
+   note="Trusted as C03; user middlewares are modelled as the well-behaved wrapper Enter i; next; Leave i.",
+   ref="DESIGN.md section 4 (C16)"),
+ "C17": dict(
+   technique="Coq proof about NewRouter's CORS accumulation (set equality + NoDup by fold invariants) + differential check of preflight arguments",
+   text="C17_args: with CORS enabled, a path item without OPTIONS gets a synthetic preflight entry with exactly its declared methods and a "
+        "duplicate-free header list equal as a set to the canonicalised declared header parameters (path-item and operation level) plus the headers "
+        "its security schemes read; C17_not_shadowed, C17_off, C17_nil_handler (not found), C17_installed_handler. Tie: seeded path items with "
+        "header spellings/security/explicit OPTIONS x cors on/off x handler nil/set; the installed CORSHandler's arguments compared with model and spec.",
+   note="Trusted as C03; http.CanonicalHeaderKey modelled for ASCII token characters (tied by the cases).",
+   ref="DESIGN.md section 4 (C17)"),
  "C13": dict(
    technique="Coq proof (induction over the byte string) of go_eval(encode s)=s + exhaustive/differential check of encoder and Go-literal evaluator against the real generator and go/types",
    text="Theorem C13_embed: for every byte string s without NUL (unbounded length) the Go constant expression emitted by the model of "
